@@ -35,6 +35,8 @@ Eval vm_compute in bad_idx (icase_ok impl) cases 0.
 
 def out_type(n):
     k = n["k"]
+    if k == "copyprobe":
+        return "TAny"
     if k == "sweep":
         return "TC" if n["elem"] not in pg.PROBES else "TF"
     if k == "slice":
@@ -264,6 +266,10 @@ def pg_params(n):
 
 
 CORPUS = [
+    # a base-typed pass-through probe between mismatched nodes (scalar -> CopyDataProbe -> collection sum)
+    [{"k": "src", "cfg": {"value": 1}}, {"k": "copyprobe", "ckey": "k"}, {"k": "csum"}],
+    [{"k": "sweep", "elem": "src", "vars": [("t", ("seq", [1, 2]))], "exprs": [("value", ("var", "t"))], "mode": "combinatorial", "broadcast": False},
+     {"k": "copyprobe", "ckey": "k"}, {"k": "mul", "cfg": {"factor": 2}}],
     # use-before-create
     [{"k": "src", "cfg": {"value": 1}}, {"k": "mul"}, {"k": "probe", "ckey": "factor"}],
     # type flow across a context-only node
@@ -293,14 +299,24 @@ def run(ck):
     stats, cases, seen = {}, [], set()
     n_cases = 5000 if thorough else 600
     pipelines = [json.loads(json.dumps(p)) for p in CORPUS]
-    for p in pipelines:  # json turns tuples into lists; restore segs
+    def _tup(e):
+        if isinstance(e, list) and e and isinstance(e[0], str) and e[0] in ("var", "const", "un", "bin", "call"):
+            return tuple(_tup(x) for x in e)
+        if isinstance(e, list):
+            return [_tup(x) for x in e]
+        return e
+    for p in pipelines:  # json turns tuples into lists; restore them
         for n in p:
             if "segs" in n:
                 n["segs"] = [tuple(s) for s in n["segs"]]
+            if "vars" in n:
+                n["vars"] = [(v, tuple(sp)) for v, sp in n["vars"]]
+            if "exprs" in n:
+                n["exprs"] = [(a, _tup(e)) for a, e in n["exprs"]]
     attempts = 0
     while len(pipelines) < n_cases and attempts < 3 * n_cases:
         attempts += 1
-        nodes, data0, need = pg.gen_pipeline(rng, stats, maxlen=7, malformed=(0.1 if attempts % 4 == 0 else 0.0))
+        nodes, data0, need = pg.gen_pipeline(rng, stats, maxlen=7, malformed=(0.1 if attempts % 4 == 0 else 0.0), extra=True)
         key = json.dumps(nodes, sort_keys=True, default=str)
         if key in seen:
             continue
